@@ -31,7 +31,10 @@ def build(reg):
                  "torch.randperm(n) returns a permutation of range(n) (A4)",
                  "torch.max over a matrix is a function of the matrix entries (extensional), (A3)"],
         bounded=[f"minimize_bandwidth: number of random restarts `samples` fixed to {samples} "
-                 "(100 is the default and the only value emu-mps uses; thorough tier); matrix size n is symbolic",
+                 "(100 is the default and the only value emu-mps uses; thorough tier only, and there only "
+                 "'result is a permutation' plus 'the final assert best_bandwidth <= matrix_bandwidth(input) cannot "
+                 "fail'; the clause BW(permute(|M|, result)) <= BW(|M|) is proved for samples in {0, 3}); "
+                 "matrix size n is symbolic",
                  "minimize_bandwidth_global: the 90 thresholds of torch.arange(0.1, 1.0, 0.01) are unrolled "
                  "(they are concrete in the source); matrix size n is symbolic"],
     )
